@@ -130,9 +130,11 @@ Definition step_line (v : server) (line : string) : server * list string :=
       (* a command served between the state copy and the encoding of a snapshot: the snapshot is of the state before it *)
       match parse_int cn, unhex_all args with
       | Some c0, Some argv =>
-          let '(v1, r) := do_snapshot v None in
-          let '(w', out) := step_event (sv_w v1) (ECmd c0 argv) in
-          (Server w' (sv_fs v1) (sv_ls v1) (sv_thr v1), v_line v1 r (sv_ls v) :: out)
+          let s0 := sv_st v in
+          let '(w1, out) := step_event (sv_w v) (ECmd c0 argv) in
+          let '(x, s, ls, r) := take_snapshot_during c hash (sv_fs v) s0 (w_st w1) (sv_ls v) None in
+          let v' := Server (w1 <| w_st := s |>) x ls (sv_thr v) in
+          (v', v_line v' r (sv_ls v) :: out)
       | _, _ => (v, ["BAD " +:+ line])
       end
   | ["L"; _; _] =>
